@@ -6,10 +6,10 @@ CONSTANTS
   MaxVersions = 6
   MaxOps = 4
   Stable = TRUE
-  OpKinds = {"append","delete","update","upsert","compact","overwrite","restore","checkout"}
+  OpKinds = {"append","delete","update","upsert","compact","overwrite","restore","checkout","index"}
   MaxBatch = 1
   Deviations = {}
 VIEW view
-INVARIANTS TypeOK SerialEquivalence NoDoubleImage WellFormed RowIdUnique RowIdsNeverReused VersionColumnsCorrect RestoreEqualsOld RewritePreservesContents
+INVARIANTS TypeOK IndexCoverageSound SerialEquivalence NoDoubleImage WellFormed RowIdUnique RowIdsNeverReused VersionColumnsCorrect RestoreEqualsOld RewritePreservesContents
 PROPERTIES VersionsImmutable RowIdStable
 CHECK_DEADLOCK FALSE
